@@ -537,7 +537,7 @@ def plan_c08_c11(pid, tier, seed, ncpu):
         aj += deq_jobs(a, workdir, known, pid, seed + 1, 1, scale(tier, 8000, 200000))
         js += asan_wrap(aj, pid)
         specs = [("dequemon", ["--seed", str(seed * 13 + i), "--cases", str(scale(tier, 20, 150)), "--ops", "40"]) for i in range(scale(tier, 2, 4))]
-        specs += [("seqmon", ["--profile", "safety", "--seed", str(seed * 17 + i), "--histories", str(scale(tier, 8, 60)), "--ops", "30", "--light", "1", "--drop-percent", "30"]) for i in range(scale(tier, 4, 8))]
+        specs += [("seqmon", ["--profile", "safety", "--seed", str(seed * 17 + i), "--histories", str(scale(tier, 5, 60)), "--ops", "30", "--light", "1", "--drop-percent", "30"]) for i in range(scale(tier, 4, 8))]
         specs += [("conmon", ["--mode", "baton", "--seed", str(seed * 19 + i), "--programs", str(scale(tier, 2, 10)), "--schedules", "2", "--watchdog-secs", str(scale(tier, 240, 900))]) for i in range(scale(tier, 2, 4))]
         if thorough:
             specs += [("conmon", ["--mode", "stress", "--seed", str(seed * 23 + i), "--programs", "6", "--schedules", "2", "--watchdog-secs", "900",
